@@ -7,6 +7,7 @@ package sym
 
 import (
 	"bytes"
+	"html"
 	"fmt"
 	"go/types"
 	"reflect"
@@ -15,8 +16,66 @@ import (
 	"unicode"
 	"unicode/utf8"
 
+	xhtml "golang.org/x/net/html"
+
 	"golang.org/x/tools/go/ssa"
 )
+
+// nativeFirst: functions with a symbolic model that are nevertheless called
+// natively when every argument is concrete (fast path; same result).
+var nativeFirst = map[string]any{
+	"strings.Contains":     strings.Contains,
+	"strings.ContainsAny":  strings.ContainsAny,
+	"strings.ContainsRune": strings.ContainsRune,
+	"strings.Index":        strings.Index,
+	"strings.IndexByte":    strings.IndexByte,
+	"strings.IndexAny":     strings.IndexAny,
+	"strings.IndexRune":    strings.IndexRune,
+	"strings.LastIndex":    strings.LastIndex,
+	"strings.LastIndexAny": strings.LastIndexAny,
+	"strings.Count":        strings.Count,
+	"strings.HasPrefix":    strings.HasPrefix,
+	"strings.HasSuffix":    strings.HasSuffix,
+	"strings.TrimSpace":    strings.TrimSpace,
+	"strings.Trim":         strings.Trim,
+	"strings.TrimLeft":     strings.TrimLeft,
+	"strings.TrimRight":    strings.TrimRight,
+	"strings.TrimPrefix":   strings.TrimPrefix,
+	"strings.TrimSuffix":   strings.TrimSuffix,
+	"strings.ToLower":      strings.ToLower,
+	"strings.ToUpper":      strings.ToUpper,
+	"strings.Split":        strings.Split,
+	"strings.SplitN":       strings.SplitN,
+	"strings.Join":         strings.Join,
+	"strings.Repeat":       strings.Repeat,
+	"strings.ReplaceAll":   strings.ReplaceAll,
+	"strings.Replace":      strings.Replace,
+	"strings.Fields":       strings.Fields,
+	"strings.EqualFold":    strings.EqualFold,
+	"strconv.Itoa":         strconv.Itoa,
+	"html.EscapeString":    html.EscapeString,
+	"golang.org/x/net/html.EscapeString": xhtml.EscapeString,
+}
+
+func allConcrete(args []value) bool {
+	for _, a := range args {
+		switch x := a.(type) {
+		case string, bool, int, int8, int16, int32, int64, uint, uint8, uint16, uint32, uint64, float64:
+		case nil:
+		case []value:
+			for _, e := range x {
+				switch e.(type) {
+				case string, uint8, int32:
+				default:
+					return false
+				}
+			}
+		default:
+			return false
+		}
+	}
+	return true
+}
 
 var bridgeFuncs = map[string]any{
 	"bytes.Equal":                         bytes.Equal,
@@ -164,6 +223,10 @@ func (i *interpreter) callBridge(fr *frame, fn *ssa.Function, name string, args 
 	if !ok || f == nil {
 		return nil, false
 	}
+	return i.callNative(fr, fn, name, f, args)
+}
+
+func (i *interpreter) callNative(fr *frame, fn *ssa.Function, name string, f any, args []value) (value, bool) {
 	fv := reflect.ValueOf(f)
 	ft := fv.Type()
 	if ft.NumIn() != len(args) {
